@@ -8,6 +8,7 @@ import z3
 from .types import (T, INT, BOOL, STR, CPS, FLAGS, TUnint, TOpt, TSeq, TTup, TUnion, TMap, TRec, V, VNone, VPy, VObj,
                     ObjType, const_value)
 from .sym import Unsupported
+from .types import z3_string_value
 
 
 def _node_truthy(term):
@@ -107,7 +108,7 @@ CSSMATCH = ObjType('CSSMatch',
                               is_xml=BOOL, is_html=BOOL),
                    # per-call state: the namespace map / iframe flag swapped around HTML-only lists, and the three memo tables
                    mut=dict(namespaces=NSMAP, iframe_restrict=BOOL, cached_default_forms=TSeq(TTup(NODE, NODE)),
-                            cached_meta_lang=TSeq(TTup(NODE, TOpt(STR))), cached_indeterminate_forms=TSeq(INT)),
+                            cached_meta_lang=TSeq(TTup(NODE, TOpt(STR))), cached_indeterminate_forms=TSeq(TTup(NODE, OPT_ATTRVAL, BOOL))),
                    cls_qual='soupsieve.css_match.CSSMatch')
 
 
@@ -424,6 +425,10 @@ def install(world):
         for t in lowers.values():
             if t.decl().name() == 'ascii_lower':
                 ax.append(z3.Length(t) == z3.Length(t.arg(0)))
+                if z3.is_string_value(t.arg(0)):
+                    # on a literal the function is computed (A-Z -> a-z, everything else unchanged: what util.lower is proved to do)
+                    lit = z3_string_value(t.arg(0))
+                    ax.append(t == z3.StringVal(''.join(chr(ord(ch) + 32) if 'A' <= ch <= 'Z' else ch for ch in lit)))
         # one extra round: parents of the terms found
         extra = {}
         for t in list(node_terms.values()):
